@@ -74,6 +74,9 @@ pub enum Expand {
     TruncateWireEvery { stride: usize },
     /// every member of the JSON envelope replaced by each of a few wrongly-typed values
     JsonFlipEvery,
+    /// byzantine issuer: every node of the payload replaced by wrongly-typed values and the
+    /// token re-signed with (key, alg); `stride` thins the enumeration
+    PayloadFlipEvery { key: String, alg: String, stride: usize },
 }
 
 pub type Session = Option<(Option<String>, Option<String>)>;
@@ -322,7 +325,7 @@ impl<'a> Exec<'a> {
                         return;
                     };
                     let out = self.w.issue(issuer_nodes[*issuer], &issuer_handles[*issuer], &isp.key, claims, strat, holder_key.as_deref(), *decoys, *fmt);
-                    self.c07(&out, "issuer", Base::Cred(ci));
+                    self.c07(&out, "issuer", Base::Cred(ci), None);
                     let alg = isp.alg.clone().unwrap_or_else(|| "ES256".into());
                     let mut rt = CredRt { msg: None, fmt: *fmt, wire: None, payload: None, truth_ok: false, byz: false, holder: None, issuer_alg: alg };
                     if let Out::Ok(s) = &out {
@@ -385,7 +388,7 @@ impl<'a> Exec<'a> {
                     if self.creds[*cred].holder.is_none() {
                         if let Some(wr) = self.creds[*cred].wire.clone() {
                             let h = self.w.holder_new(self.n_holder, &wr, fmt);
-                            self.c07(&h, "holder_new", Base::Cred(*cred));
+                            self.c07(&h, "holder_new", Base::Cred(*cred), None);
                             if let Out::Ok(h) = h {
                                 self.creds[*cred].holder = Some(h);
                             }
@@ -393,7 +396,7 @@ impl<'a> Exec<'a> {
                     }
                     if let Some(h) = self.creds[*cred].holder.clone() {
                         let out = self.w.present(self.n_holder, &h, selection, kb.as_ref());
-                        self.c07(&out, "present", Base::Pres(pi));
+                        self.c07(&out, "present", Base::Pres(pi), None);
                         if let Out::Ok(s) = &out {
                             rt.msg = Message::parse(s, fmt);
                         } else {
@@ -463,7 +466,7 @@ impl<'a> Exec<'a> {
                 // apply the explicit faults first to know the part's text
                 let mut wtmp = World::new(BTreeMap::new());
                 for f in &case.faults {
-                    if matches!(f, Fault::ResignKb { .. } | Fault::KbFieldEdit { .. } | Fault::AlgRewrite(_)) {
+                    if matches!(f, Fault::ResignKb { .. } | Fault::KbFieldEdit { .. } | Fault::AlgRewrite(_) | Fault::ByzPayload { .. }) {
                         continue;
                     }
                     faults::apply(f, &mut m, &self.tokens, &mut wtmp, 0);
@@ -569,6 +572,22 @@ impl<'a> Exec<'a> {
                     k += (*stride).max(1);
                 }
             }
+            Expand::PayloadFlipEvery { key, alg, stride } => {
+                let n = world::payload_of(&m).map(|p| model::count_nodes(&Value::Object(p)).saturating_sub(1)).unwrap_or(0);
+                let vals = [json!(null), json!(0), json!(true), json!([]), json!({}), json!("x"), json!([[]]), json!({"_sd": 1}), json!({"...": 1}), json!([{"...": []}])];
+                let mut k = 0;
+                let mut vi = 0;
+                while k < n {
+                    for j in 0..3 {
+                        let mut c = plain.clone();
+                        let v = vals[(vi + j) % vals.len()].clone();
+                        c.faults.push(Fault::ByzPayload { edit: faults::PayloadEdit::FlipNode(k, v), key: key.clone(), alg: alg.clone() });
+                        out.push(c);
+                    }
+                    vi += 3;
+                    k += (*stride).max(1);
+                }
+            }
             Expand::JsonFlipEvery => {
                 let vals = [json!(null), json!(0), json!(true), json!([]), json!({}), json!("x"), json!([1]), json!(["x", 1]), json!([null])];
                 for key in ["protected", "payload", "signature", "disclosures", "kb_jwt"] {
@@ -588,7 +607,7 @@ impl<'a> Exec<'a> {
         out
     }
 
-    fn c07<T>(&mut self, o: &Out<T>, entry: &str, base: Base) {
+    fn c07<T>(&mut self, o: &Out<T>, entry: &str, base: Base, case: Option<&Case>) {
         if let Out::Panic(p) = o {
             self.rep.count("probe.panic_seen");
             if self.scn.check != "C07" {
@@ -603,7 +622,7 @@ impl<'a> Exec<'a> {
             trigger.insert("panic_file".into(), json!(short_file(&p.file)));
             trigger.insert("panic_line".into(), json!(p.line));
             trigger.insert("panic_msg".into(), json!(world::trunc(&p.msg, 200)));
-            let scenario = self.reduced_scenario(&base, None);
+            let scenario = self.reduced_scenario(&base, case);
             self.rep.violations.push(Violation {
                 property: "C07".into(),
                 clause: "no-panic".into(),
@@ -688,7 +707,7 @@ impl<'a> Exec<'a> {
         let plain = Case { faults: vec![], wire: vec![], resolver: Resolver::Directory, expand: None, session: sess, kb_enc: KbEnc::Absent, extra: vec![], ..case.clone() };
         let r = match self.deliver(m, &plain, case.fmt) {
             Some((_, vo)) => {
-                self.c07(vo.res(), "verifier", case.base.clone());
+                self.c07(vo.res(), "verifier", case.base.clone(), Some(&plain));
                 self.rep.count("controls_total");
                 if vo.res().is_ok() {
                     self.rep.count("controls_accepted");
@@ -710,7 +729,10 @@ impl<'a> Exec<'a> {
             seams::advance_clock_s(case.hold_s);
         }
         let now = seams::clock_s();
-        let (control_ok, control_claims) = self.control(case, &base);
+        // byzantine credentials carry their deviation in the base message itself: the control
+        // that matters is the well-formed credential 0, not the deviated one
+        let byz_deviated = self.creds.get(cred_idx).map(|c| c.byz).unwrap_or(false) && cred_idx != 0;
+        let (control_ok, control_claims) = if byz_deviated { (true, None) } else { self.control(case, &base) };
         let mut m = base.clone();
         let mut fired: Vec<String> = Vec::new();
         for f in &case.faults {
@@ -738,7 +760,7 @@ impl<'a> Exec<'a> {
             fired.push(wf.kind().to_string());
         }
         self.rep.evaluations += 1;
-        self.c07(vo.res(), "verifier", case.base.clone());
+        self.c07(vo.res(), "verifier", case.base.clone(), Some(case));
         if vo.res().is_ok() && !fired.is_empty() {
             self.rep.count("probe.verifier_accepted_after_fault");
         }
@@ -766,7 +788,9 @@ impl<'a> Exec<'a> {
             if m.transcodable() {
                 if let Some((wire2, vo2)) = self.deliver(&m, case, case.fmt.other()) {
                     self.rep.evaluations += 1;
-                    self.c07(vo2.res(), "verifier", case.base.clone());
+                    let mut other = case.clone();
+                    other.fmt = case.fmt.other();
+                    self.c07(vo2.res(), "verifier", case.base.clone(), Some(&other));
                     verdict2 = vo2.res().class();
                     if check == "C10" {
                         viol = self.oracle_c10(case, &m, &wire, &wire2, &vo, &vo2, &fired, &mut clause_tag);
@@ -780,7 +804,7 @@ impl<'a> Exec<'a> {
         let cred_cfg = self.creds.get(cred_idx).map(|c| format!("{}|{}", c.issuer_alg, c.fmt.name())).unwrap_or_default();
         let st = format!("{}|{}|{}|kb={}|sess={}|{:?}|{}|{}|{}", check, case.fmt.name(), cred_cfg, m.kb.is_some(), sess_class(&case.session), fired, verdict, verdict2, clause_tag);
         self.states.insert(hash_str(&st));
-        if !fired.is_empty() && control_ok {
+        if (!fired.is_empty() || byz_deviated) && control_ok {
             self.nontrivial.insert(hash_str(&wire) ^ hash_str(&session_key(&case.session)));
         }
         if self.rep.sample.is_none() && !fired.is_empty() && self.rep.evaluations > 3 {
@@ -1123,11 +1147,11 @@ impl<'a> Exec<'a> {
             let Some(w1) = c.wire.clone() else { continue };
             let cfmt = c.fmt;
             let h1 = self.w.holder_new(self.n_holder, &w1, cfmt);
-            self.c07(&h1, "holder_new", Base::Cred(*cred));
+            self.c07(&h1, "holder_new", Base::Cred(*cred), None);
             let first: Option<Message> = match &h1 {
                 Out::Ok(h) => {
                     let o = self.w.present(self.n_holder, h, selection, kb.as_ref());
-                    self.c07(&o, "present", Base::Pres(pi));
+                    self.c07(&o, "present", Base::Pres(pi), None);
                     if o.is_panic() {
                         continue;
                     }
@@ -1140,7 +1164,7 @@ impl<'a> Exec<'a> {
             let ofmt = c.fmt.other();
             let Some(w2) = m.serialize(ofmt) else { continue };
             let h2 = self.w.holder_new(self.n_holder, &w2, ofmt);
-            self.c07(&h2, "holder_new", Base::Cred(*cred));
+            self.c07(&h2, "holder_new", Base::Cred(*cred), None);
             let Out::Ok(h2) = h2 else {
                 if first.is_some() && scn.check == "C10" {
                     self.push_c10_holder(pi, "holder construction differs between formats", json!({"other_format_result": "not Ok"}));
@@ -1148,7 +1172,7 @@ impl<'a> Exec<'a> {
                 continue;
             };
             let out2 = self.w.present(self.n_holder, &h2, selection, kb.as_ref());
-            self.c07(&out2, "present", Base::Pres(pi));
+            self.c07(&out2, "present", Base::Pres(pi), None);
             self.rep.evaluations += 1;
             self.rep.count("oracle.c10.holder_compared");
             let second = out2.ok().and_then(|s| Message::parse(s, ofmt));
